@@ -5,7 +5,7 @@
     source are regenerated into Gen/FsWalk_gen.v on every run and the premises [backend_keys_ok], [walk_ok] (and
     the chain parameters) are discharged for them by kernel-checked instance obligations in checks/c19.py. *)
 From Coq Require Import List NArith Bool Permutation.
-From SV Require Import SM.FsChain SM.FsChainProofs SM.FsChainRel SM.FsChainWitness SM.FsChainRaw SM.FsChainCompose SM.FsChainComplete SM.FsChainNorm SM.FsChainForms SM.FsChainFormsProofs SM.FsChainWhole SM.FsChainWholeProofs SM.FsChainRead SM.FsChainReadProofs SM.FsChainMixed SM.FsChainMixedProofs.
+From SV Require Import SM.FsChain SM.FsChainProofs SM.FsChainRel SM.FsChainWitness SM.FsChainRaw SM.FsChainCompose SM.FsChainComplete SM.FsChainNorm SM.FsChainForms SM.FsChainFormsProofs SM.FsChainWhole SM.FsChainWholeProofs SM.FsChainRead SM.FsChainReadProofs SM.FsChainMixed SM.FsChainMixedProofs SM.FsChainAdd SM.FsChainAddProofs SM.FsChainWalkGen SM.FsChainNoise SM.FsChainNoiseRaw SM.FsChainProperty SM.FsChainPropertyProofs.
 Import ListNotations.
 Open Scope N_scope.
 
@@ -517,3 +517,163 @@ Theorem c19_chain_directory_case_refuted :
   /\ mchain_get mixed_raw [65] = Some ([65], [1]) /\ mchain_get mixed_fold [65] = Some ([65], [1])
   /\ Forall (mmember_ok [65]) mixed_raw.
 Proof. exact mchain_case_needs_exact_refuted. Qed.
+
+(** ** Round 4: the glue around the anchored functions. *)
+
+(** [add_sys] over a whole program.  Whatever the sequence of calls: when the method always inserts ([guard_ok]: no
+    return before the insertion) - first for priority, last otherwise ([actions_ok]) - the chain is the priority
+    members latest first followed by the others in the order they were added; every member that was added is mounted. *)
+Theorem c19_chain_history_order : forall (A : Type) g (same : A -> A -> bool) prio plain (h : list (bool * A)),
+  guard_ok g = true -> actions_ok prio plain = true ->
+  build_chain g same prio plain h = priority_order h.
+Proof. intros A. exact build_chain_priority_order. Qed.
+Theorem c19_chain_history_mounts_all : forall (A : Type) g (same : A -> A -> bool) prio plain (h : list (bool * A)) m,
+  guard_ok g = true -> actions_ok prio plain = true ->
+  In m (map snd h) -> In m (build_chain g same prio plain h).
+Proof. intros A. exact build_chain_mounts_all. Qed.
+(** ... hence the chain sentence of the property for the chain a program ends up with: every lookup form is the
+    specification applied to the members in priority order (members of any backend kind, any subfolders). *)
+Theorem c19_chain_history_spec : forall g same prio plain em (h : list (bool * kmember)) q,
+  guard_ok g = true -> actions_ok prio plain = true -> exists_mode_ok em = true ->
+  Forall kmember_ok (map snd h) ->
+  let ms := build_chain g same prio plain h in
+  let sp := map k_spec (priority_order h) in
+  chain_get (map k_member ms) q = chain_spec sp q
+  /\ chain_open (map k_member ms) q = chain_spec sp q
+  /\ chain_exists em (map k_xmember ms) q = is_some (chain_spec sp q)
+  /\ chain_read ms q = option_map snd (chain_spec sp q).
+Proof. exact chain_history_spec. Qed.
+(** A guard `if (sys, prefix) in self.systems: return` (seeded c19_5) compares members the way [FileSystem.__eq__] does -
+    kind and path label: a second archive mounted under the label of the first is dropped (its name is missing although
+    a member that was added has it) and a priority re-add does not promote the member. *)
+Theorem c19_chain_add_guard_refuted :
+  chain_spec (map d_spec (priority_order hist_twins)) [121] = Some ([121], [2])
+  /\ chain_spec (map d_spec (build_chain AddSkipMounted same_label (InsertAt 0) Append hist_twins)) [121] = None
+  /\ chain_spec (map d_spec (build_chain AddAlways same_label (InsertAt 0) Append hist_twins)) [121] = Some ([121], [2])
+  /\ chain_spec (map d_spec (priority_order hist_promote)) [120] = Some ([120], [2])
+  /\ chain_spec (map d_spec (build_chain AddSkipMounted same_label (InsertAt 0) Append hist_promote)) [120] = Some ([120], [1]).
+Proof. exact add_guard_skips_equal_refuted. Qed.
+
+(** The names [RawFileSystem.walk_folder] lists, as translated ([raw_rel]): with the relative path of the joined file
+    name the listing is [raw_walk] - every listed name is a stored name and [c19_raw_walk_exact] / [..._lookup_closed]
+    speak about what is listed. *)
+Theorem c19_raw_walk_lists_stored_names : forall r ops fs folder,
+  raw_rel_ok r = true ->
+  raw_walk_rel r ops fs folder = raw_walk ops fs folder /\ (forall e, In e (raw_walk_rel r ops fs folder) -> In e fs).
+Proof.
+  intros r ops fs folder H. split; [destruct r; [apply raw_walk_rel_file|discriminate]|].
+  intros e. apply raw_walk_rel_lists_stored. exact H.
+Qed.
+(** Joining the directory's relative path with the file name afterwards (seeded c19_6) lists a root file "x" as "./x":
+    not a stored name, and in a chain the de-duplicated walk lists the name twice. *)
+Theorem c19_raw_walk_dirjoin_refuted :
+  map fst (raw_walk_rel RawRelDirJoin [OSlash] rootfile []) = [[46; 47; 120]]
+  /\ map fst (raw_walk_rel RawRelFile [OSlash] rootfile []) = [[120]]
+  /\ map fst (chain_walk RelDropSegs [OFold] (chain_dir_mem RawRelDirJoin) []) = [[46; 47; 120]; [120]]
+  /\ map fst (chain_walk RelDropSegs [OFold] (chain_dir_mem RawRelFile) []) = [[120]]
+  /\ chain_get (chain_dir_mem RawRelDirJoin) [120] = Some ([120], [1]).
+Proof. exact raw_rel_dirjoin_refuted. Qed.
+
+(** The known finding case-duplicate-winner-vpk-differs cannot be repaired inside VPKFileSystem: "the file stored last
+    wins" ([spec_lookup], what the in-memory and zip backends do) is not a function of any container that gives the
+    same result for the two insertion orders of "a/x" and "A/x" - and VPK.write_dirfile sorts (the check confirms on
+    every run that the two archives are byte-identical). *)
+Theorem c19_case_duplicate_winner_needs_order : forall (C : Type) (container : list file -> C) (serve : C -> str -> option file),
+  container [dup_a; dup_A] = container [dup_A; dup_a] ->
+  ~ (forall fs q, serve (container fs) q = spec_lookup fs q).
+Proof. intros C. exact winner_needs_order. Qed.
+
+(** ** Round 4: the walk of chains that also contain directories. *)
+
+(** What the chain needs from a member, for one folder ([walk_member_ok] = [lists_sound] /\ [lists_complete]): every file
+    it lists below "prefix joined with folder" has a clean listed name inside the folder that the member, asked for it,
+    answers with that very file; and every clean name inside the folder that the member serves is listed under a name
+    with the same folded key.  From that interface alone: every (path, File) of the de-duplicated walk is what the
+    chain's lookup returns for the path - the file of the first member that has the name. *)
+Theorem c19_chain_walk_from_member_interface : forall dops ms folder x,
+  dedup_ops_ok dops = true -> Forall (walk_member_ok folder) ms ->
+  In x (chain_walk RelDropSegs dops ms folder) ->
+  chain_get ms (fst x) = Some (snd x).
+Proof. exact chain_walk_lookup_closed_gen. Qed.
+(** Folding backends with a sound walk form satisfy the interface (empty or clean prefix and folder), and so does the
+    directory backend as translated - listed names are the stored names, the folder goes through the translated
+    operations - when the folder is exact for it ([folder_exact]: every stored file lying below prefix/folder up to
+    letter case lies below it exactly). *)
+Theorem c19_members_satisfy_walk_interface : forall m folder,
+  okp folder -> gmember_ok folder m -> walk_member_ok folder m.
+Proof. intros m folder Hf [H|H]; [apply sound_member_walk_ok|apply raw_member_walk_ok]; assumption. Qed.
+(** Hence for chains of in-memory, zip, VPK *and directory* members in any order: the de-duplicated walk lists only
+    what the lookup serves under the listed name. *)
+Theorem c19_chain_walk_with_directory_members : forall dops ms folder x,
+  dedup_ops_ok dops = true -> okp folder -> Forall (gmember_ok folder) ms ->
+  In x (chain_walk RelDropSegs dops ms folder) ->
+  chain_get ms (fst x) = Some (snd x).
+Proof. exact chain_walk_lookup_closed_mixed. Qed.
+(** The exactness premise is needed ("for exact-case names"): a directory holding "sub/x" in front of a zip holding
+    "sub/x", walked as "Sub": the zip's file is listed, the lookup of the listed name returns the directory's. *)
+Theorem c19_chain_walk_directory_folder_case_refuted :
+  chain_walk RelDropSegs [OFold] dir_then_zip [83; 117; 98] = [(subx, (subx, [2]))]
+  /\ chain_get dir_then_zip subx = Some (subx, [1])
+  /\ chain_walk RelDropSegs [OFold] dir_then_zip [115; 117; 98] = [(subx, (subx, [1]))].
+Proof. exact walk_dir_folder_case_refuted. Qed.
+Example c19_chain_walk_mixed_premises_satisfiable : Forall (gmember_ok [115; 117; 98]) dir_then_zip /\ okp [115; 117; 98].
+Proof. exact walk_mixed_premises_satisfiable. Qed.
+
+(** ** Round 4: subfolder prefixes and folder arguments in any spelling. *)
+
+(** [spells p p0]: [p] is relative, has no ".." segment, and its segments without the empty and "." ones are those of
+    [p0], either slash ("d/", "./d", "d/.", "d\\.\\e//" ...).  Spellings of one path have one normal form, the name a
+    member is asked for has the same normal form under either spelling of its prefix, and the chain drops the same
+    number of segments from a listed path. *)
+Theorem c19_spellings_one_normal_form : forall p p0 q q0,
+  spells p p0 -> spells q q0 ->
+  normpath (slash p) = normpath (slash p0)
+  /\ normpath (slash (full_name p q)) = normpath (slash (full_name p0 q0))
+  /\ (forall x, drop_segs x p = drop_segs x p0).
+Proof.
+  intros p p0 q q0 Hp Hq. split; [apply spells_normpath; exact Hp|]. split; [apply spells_full_name; assumption|].
+  intros x. apply spells_drop_segs. exact Hp.
+Qed.
+(** Hence the composition for members of today's form (queries and the walk's folder go through normpath after the slash
+    conversion: [backend_keys_norm], [walk_norm]) mounted under *any spelling* of an empty or clean subfolder and walked
+    with any spelling of an empty or clean folder: every (path, File) listed is what the chain's lookup returns. *)
+Theorem c19_chain_walk_any_spelling : forall dops ms f f0 x,
+  dedup_ops_ok dops = true -> Forall (noisy_member f f0) ms ->
+  In x (chain_walk RelDropSegs dops ms f) ->
+  chain_get ms (fst x) = Some (snd x).
+Proof. exact chain_walk_lookup_closed_noisy. Qed.
+(** ... also with directory members among them (cleanly spelt, exact folder). *)
+Theorem c19_chain_walk_any_member : forall dops ms f f0 x,
+  dedup_ops_ok dops = true -> Forall (any_member f f0) ms ->
+  In x (chain_walk RelDropSegs dops ms f) ->
+  chain_get ms (fst x) = Some (snd x).
+Proof. exact chain_walk_lookup_closed_all. Qed.
+(** ... and with directory members under any spelling too (their exactness is asked of the clean spellings): the
+    directory backend resolves names through normpath after the slash conversion as well. *)
+Theorem c19_chain_walk_any_member_any_spelling : forall dops ms f f0 x,
+  dedup_ops_ok dops = true -> Forall (any_member_spelt f f0) ms ->
+  In x (chain_walk RelDropSegs dops ms f) ->
+  chain_get ms (fst x) = Some (snd x).
+Proof. exact chain_walk_lookup_closed_spelt. Qed.
+Example c19_spelling_examples :
+  spells [46; 47; 100] [100] /\ spells [100; 47] [100] /\ spells [100; 47; 46] [100]
+  /\ spells [100; 92; 46; 92; 101; 47; 47] [100; 47; 101] /\ spells [46] [] /\ spells [46; 47] [] /\ spells [] []
+  /\ ~ spells [100; 47; 46; 46] [].
+Proof. exact spells_examples. Qed.
+
+(** ** Round 4: the property as one statement. *)
+
+(** [source_cfg] is everything the translator reads off filesys.py / vpk.py (three backend records, the VPK content
+    expressions and reader, the directory backend's operations and listed-name shape, add_sys's guard and branch actions,
+    the _file_exists mode, the de-duplication mode / key / relative-name mode); [source_ok] the conjunction of the named
+    recognisers.  For every configuration that passes: [backends_agree] (sentence 1: same names, same bytes, case / slash
+    kind / redundant segments insignificant, the directory for exact-case names), [walks_exact] (sentence 2: a walk lists
+    exactly the files inside the folder, the empty folder all, every listed name looks up to that file) and
+    [chains_honour_priority] (sentence 3: after any sequence of add_sys calls every lookup form is the specification over
+    the members in priority order; the de-duplicated walk - members under any spelling of their subfolder, directories
+    included - lists each name once, with the file the lookup returns).  The check instantiates it at today's generated
+    configuration on every run. *)
+Theorem c19_property : forall s, source_ok s = true -> property_holds s.
+Proof. exact property_holds_for_every_ok_source. Qed.
+Example c19_property_hypotheses_satisfiable : source_ok witness_cfg = true.
+Proof. exact source_ok_satisfiable. Qed.
